@@ -147,11 +147,13 @@ impl SubCheck for C20 {
         "c20-precedence"
     }
     fn strategy(&self, _tier: Tier) -> BoxedStrategy<Case> {
-        let side = |name: &'static str| proptest::collection::vec((any::<bool>(), 0u8..3), SETTINGS.len()).prop_map(move |v| {
+        let side = |name: &'static str| proptest::collection::vec((any::<bool>(), 0u8..4), SETTINGS.len()).prop_map(move |v| {
             let mut m = BTreeMap::new();
             for (s, (on, k)) in SETTINGS.iter().zip(v) {
                 if on {
-                    m.insert(s.to_string(), value_for(s, name, k));
+                    // an option given with an empty value is still given: `--swift-prefix ""` switches a configured prefix off
+                    let val = if k == 3 && name == "cli" && s.ends_with("prefix") { String::new() } else { value_for(s, name, k % 3) };
+                    m.insert(s.to_string(), val);
                 }
             }
             m
